@@ -628,5 +628,10 @@ func retryDelay(attempt int, retry RetryConfig) time.Duration {
 			delay = 0
 		}
 	}
+	// float64 -> int64 conversion is undefined at or beyond 2^63 (it yields a
+	// negative duration on amd64, i.e. an immediate retry): saturate instead.
+	if delay >= math.MaxInt64 {
+		return time.Duration(math.MaxInt64)
+	}
 	return time.Duration(delay)
 }
